@@ -140,12 +140,10 @@ def run(chk):
         f = s.G.fn("_check_and_set_rar_parameters")
         n, n_start = K('n'), K('n_start')
         from ..genenv import rar_params
-        try:
-            r = f(rar_params(), n, n_start)
-        except Top:
-            # the code needs the counts themselves (e.g. range(n)): the same obligations on concrete counts
+        def concrete():
+            # the same obligations on concrete counts (a start of exactly one point, a full store included)
             msgs = []
-            for n_c, s_c in ((8, 3), (10, 5), (7, 7)):
+            for n_c, s_c in ((8, 3), (10, 5), (7, 7), (6, 1), (1, 1)):
                 r = f(rar_params(), n_c, s_c)
                 if not (isinstance(r, tuple) and len(r) == 4):
                     raise Violation("result", str(r), "(n_start, p, period counter, step count)")
@@ -164,6 +162,12 @@ def run(chk):
             if not (lift(r2[0]) == lift(n) and r2[1] is None and r2[2] is None and r2[3] is None):
                 raise Violation("no RAR", str(r2), "(n, None, None, None)")
             return "concrete counts " + "; ".join(msgs) + ": first n_start entries active, period counter update_every - 1, step count 0"
+        conc = concrete()
+        try:
+            r = f(rar_params(), n, n_start)
+        except Top:
+            # the code needs the counts themselves (e.g. range(n)): the concrete counts are what is established
+            return conc
         if not (isinstance(r, tuple) and len(r) == 4):
             raise Violation("result", str(r), "(n_start, p, period counter, step count)")
         ns, p, since, J = r
